@@ -1660,18 +1660,20 @@ func (self *ReplicationAckDB) ProcessLeaderPushLock(glockIndex uint16, aofLock *
 	if lock == nil || lock.command == nil {
 		return nil
 	}
-	self.ackGlocks[glockIndex].Lock()
-	if self.manager.slock.state != STATE_LEADER || (aofLock.AofFlag&AOF_FLAG_UPDATED == 0 && lock.ackCount == 0xff) {
-		// not leader any more, or the pending hold was already rolled back
-		// (timed out / released) before its record reached the log
-		self.ackGlocks[glockIndex].Unlock()
-		lockManager := lock.manager
-		lockManager.lockDb.DoAckLock(lock, false)
+	lockManager := lock.manager
+	if lockManager == nil {
 		return nil
 	}
-	if _, ok := self.commandAofs[glockIndex][lock.command.RequestId]; ok {
+	self.ackGlocks[glockIndex].Lock()
+	// the pending hold can be rolled back (time-out, release) by a request or
+	// sweeper goroutine at any moment: decide and mark it under the shard mutex
+	lockManager.glock.Lock()
+	_, registered := self.commandAofs[glockIndex][lock.command.RequestId]
+	if self.manager.slock.state != STATE_LEADER || registered || (aofLock.AofFlag&AOF_FLAG_UPDATED == 0 && lock.ackCount == 0xff) {
+		// not leader any more, a duplicate, or already rolled back before its
+		// record reached the log: only release the acknowledgement reference
+		lockManager.glock.Unlock()
 		self.ackGlocks[glockIndex].Unlock()
-		lockManager := lock.manager
 		lockManager.lockDb.DoAckLock(lock, false)
 		return nil
 	}
@@ -1680,6 +1682,7 @@ func (self *ReplicationAckDB) ProcessLeaderPushLock(glockIndex uint16, aofLock *
 	self.commandAofs[glockIndex][lock.command.RequestId] = aofId
 	self.aofLocks[glockIndex][aofId] = lock
 	lock.ackCount = self.ackCount
+	lockManager.glock.Unlock()
 	self.ackGlocks[glockIndex].Unlock()
 	return nil
 }
